@@ -3,7 +3,7 @@ CONSTANTS
   Rec = {1, 2, 3}
   Thread = {1, 2, 3}
   Orig = {1, 2}
-  MaxNest = 1
+  MaxNest = 2
   Deviations = {}
 SPECIFICATION Spec
 VIEW View
